@@ -107,6 +107,9 @@ type fdSide struct {
 	transparent                  map[types.Object]*fdTransparentFn
 	// fork: callee -> argument positions passed as E.M() that upstream takes as E (method name)
 	liftArgs map[types.Object]map[int]string
+	// fork: statements whose only effect is a store into a write-only package-level
+	// variable (rules_r4c10.go): not part of the strict residual
+	sinkStmts map[ast.Stmt]bool
 }
 
 // fdSingleDefs finds the locals of fd that are defined exactly once by a 1:1
@@ -220,19 +223,40 @@ func fdFuncKey(d *ast.FuncDecl) string {
 	return d.Name.Name
 }
 
+// fdCollectFuncs collects the function declarations of the package, whatever file a
+// declaration lives in: all files of a package share one scope, so the file is not
+// part of what a function is (files == nil: every non-test file of the package; a
+// non-nil set restricts to those base names).  Several init functions of one package
+// are told apart by their order of appearance.
 func fdCollectFuncs(pk *packages.Package, files map[string]bool) map[string]*ast.FuncDecl {
 	out := map[string]*ast.FuncDecl{}
+	type nf struct {
+		name string
+		f    *ast.File
+	}
+	var list []nf
 	for _, f := range pk.Syntax {
-		name := pk.Fset.Position(f.Pos()).Filename
+		list = append(list, nf{pk.Fset.Position(f.Pos()).Filename, f})
+	}
+	sort.SliceStable(list, func(i, j int) bool { return list[i].name < list[j].name })
+	inits := 0
+	for _, e := range list {
+		name := e.name
 		if i := strings.LastIndex(name, "/"); i >= 0 {
 			name = name[i+1:]
 		}
-		if !files[name] {
+		if strings.HasSuffix(name, "_test.go") || (files != nil && !files[name]) {
 			continue
 		}
-		for _, d := range f.Decls {
+		for _, d := range e.f.Decls {
 			if fd, ok := d.(*ast.FuncDecl); ok && fd.Body != nil {
-				out[fdFuncKey(fd)] = fd
+				k := fdFuncKey(fd)
+				if fd.Recv == nil && fd.Name.Name == "init" {
+					if inits++; inits > 1 {
+						k = fmt.Sprintf("init#%d", inits)
+					}
+				}
+				out[k] = fd
 			}
 		}
 	}
@@ -610,6 +634,9 @@ func (c *fdCtx) expr(e ast.Expr) string {
 		if c.plainErrorf(e) {
 			return "errors.New(" + c.exprs(args) + ")"
 		}
+		if s, ok := c.textForm(e); ok {
+			return s // decimal formatting / string building in one form (rules_r4c10.go)
+		}
 		if t := c.s.transparent[c.calleeObj(e)]; t != nil && len(e.Args) == len(t.params) && !e.Ellipsis.IsValid() && c.bind == nil {
 			c.bind = map[types.Object]ast.Expr{}
 			for i, p := range t.params {
@@ -636,7 +663,11 @@ func (c *fdCtx) expr(e ast.Expr) string {
 	case *ast.IndexExpr:
 		return c.expr(e.X) + "[" + c.expr(e.Index) + "]"
 	case *ast.SliceExpr:
-		s := c.expr(e.X) + "[" + c.expr(e.Low) + ":" + c.expr(e.High)
+		low := c.expr(e.Low)
+		if e.Low != nil && c.isZeroConst(e.Low) {
+			low = "" // x[0:n] is x[:n]
+		}
+		s := c.expr(e.X) + "[" + low + ":" + c.expr(e.High)
 		if e.Max != nil {
 			s += ":" + c.expr(e.Max)
 		}
@@ -1393,6 +1424,10 @@ func (w *fdWalker) stmts(list []ast.Stmt, chain []fdCond) bool {
 // follow cannot execute (an `if true {…return}` left by partial evaluation)
 // and the guard conditions that hold for the following siblings, if any.
 func (w *fdWalker) stmt(st ast.Stmt, chain []fdCond) (dead bool, guards []fdCond) {
+	if w.s.sinkStmts[st] {
+		// its only effect is a store into a variable no decoder code reads
+		return false, nil
+	}
 	if sw, ok := st.(*ast.SwitchStmt); ok {
 		if n := w.constSwitchToIf(sw); n != nil {
 			st = n
@@ -2004,6 +2039,13 @@ type fdResult struct {
 	// package-level variables of the fork that upstream has under another name
 	// (fork name -> upstream name), matched by definition
 	Renamed map[string]string
+	// fork-only functions that lie outside the decoder (rules_r4c10.go), why the other
+	// fork-only functions do not, the verdicts on the package-level variables of the
+	// fork and the number of sink statements passed over
+	FuncsOutside []string
+	NotOutside   map[string]string
+	PkgVars      []fdVarVerdict
+	SinkStmts    int
 }
 
 // ForkDiff compares the fork package with the upstream package.
@@ -2091,6 +2133,33 @@ func ForkDiff(fork, up *packages.Package, files map[string]bool, laxObjs map[typ
 			}
 		}
 		fs.dropArgs[fo] = drop
+	}
+	// fork-only functions that are reachable from nothing compared and touch nothing
+	// but write-only variables are outside the decoder: no drift (rules_r4c10.go)
+	{
+		cands := map[string]*ast.FuncDecl{}
+		for _, k := range res.FuncsOnlyFork {
+			cands[k] = fs.funcs[k]
+		}
+		oi := fdOutside(fs, us, cands)
+		res.NotOutside = map[string]string{}
+		var rest []string
+		for _, k := range res.FuncsOnlyFork {
+			fo := fork.TypesInfo.Defs[fs.funcs[k].Name]
+			if fo != nil && oi.island[fo] {
+				res.FuncsOutside = append(res.FuncsOutside, k)
+				delete(fs.onlyHere, fo)
+				continue
+			}
+			rest = append(rest, k)
+			if fo != nil {
+				res.NotOutside[k] = oi.whyNot[fo]
+			}
+		}
+		res.FuncsOnlyFork = rest
+		res.PkgVars = oi.vars
+		fs.sinkStmts = oi.sinkStmts
+		res.SinkStmts = len(oi.sinkStmts)
 	}
 	for _, k := range keysOf(us.funcs) {
 		if _, ok := fs.funcs[k]; !ok {
